@@ -431,6 +431,16 @@ def analysis_check(work, pid, level_text):
             certs['first: ids unique=%s productive=%s closed=%s' % (cf['wf_ids'], cf['productive'], cf['closed'])] += 1
             if pid == 'C09' and cf['wf_ids'] and cf['productive'] and not cf['closed']:
                 failures.append({'grammar': text, 'what': 'first sets are not closed under the first-set inclusions (hypothesis first_closed of theorem C09_first_sets_exact is false), so some derivable head token is missing'})
+        cfo = m.get('cert_follow')
+        if cfo is not None:
+            certs['follow: closed=%s' % cfo['closed']] += 1
+            if pid == 'C09' and cf is not None and cf['wf_ids'] and not cfo['closed']:
+                failures.append({'grammar': text, 'what': 'follow sets are not closed under the follow inclusions (hypothesis fol_closed of theorem C09_follow_sets_exact is false), so some token that can follow a construct is missing'})
+        if 'cert_recovery' in m:
+            cr = m['cert_recovery']
+            certs['recovery: %s' % ('not computed (grammar rejected)' if cr is None else 'graph/fixpoint/ids certificates=%s' % cr)] += 1
+            if pid == 'C14' and cr is False and r['accepted']:
+                failures.append({'grammar': text, 'what': 'the certificates of theorem C14_recovery_sets_are_dominator_follow_sets (graph_ok, dom_fixed, nodup) do not hold for the computed dominator map'})
         df = k2.compare(r['dump'], r['diags'], m, ids)
         if df:
             k2dis.append({'grammar': text, 'what': df[0], 'all': df[:4]})
@@ -718,7 +728,7 @@ def check_C11(work, args):
     n = 150 if quick else 2500
     gs = []
     for i in range(n):
-        g = gen_grammar.Gen(ck.rng, dict(empty_rule=0.15, parts=0.4, rename=0.4, marker=0.3, whole_create=0.4, pred=0.3)).grammar()
+        g = gen_grammar.Gen(ck.rng, dict(empty_rule=0.15, parts=0.4, rename=0.4, marker=0.3, whole_create=0.4, pred=0.3, pratt=0.4, assertion=0.3, action=0.3)).grammar()
         if ck.rng.random() < 0.35:
             g = rename_rules(g, ck.rng)
         gs.append(g)
@@ -821,9 +831,23 @@ def sets_by_position(dump):
             visit(o, rule, ctr)
         if x.get('op') is not None:
             visit(x['op'], rule, ctr)
+    inch = set(dump['sema'].get('in_choice', []))
+    used = set(dump['sema'].get('used', []))
+
+    def marks(x, rule, ctr):
+        i = ctr[0]
+        ctr[0] += 1
+        out[(rule, i, x['k'])]['in_choice'] = x['id'] in inch
+        for o in (x.get('ops') or []):
+            marks(o, rule, ctr)
+        if x.get('op') is not None:
+            marks(x['op'], rule, ctr)
     for r in dump['rules']:
         if r['regex'] is not None and r['name']:
             visit(r['regex'], r['name'], [0])
+            marks(r['regex'], r['name'], [0])
+        if r['name']:
+            out[('rule', r['name'], 'decl')] = {'in_choice': r['id'] in inch, 'used': r['id'] in used}
     return out
 
 
@@ -836,7 +860,7 @@ def check_C15(work, args):
     lv.build_impl(bins=True)
     n = 30 if quick else 600
     nperm = 2 if quick else 8
-    gs = [gen_grammar.Gen(ck.rng).grammar() for _ in range(n * 3)]
+    gs = [gen_grammar.Gen(ck.rng, dict(choice=0.6, nrules=(2, 6)) if i % 2 else None).grammar() for i in range(n * 3)]
     sub = os.path.join(work, 'base')
     items = k3.prepare(sub, gs)
     acc = [it for it in items if it['res'].get('wrote')][:n]
@@ -864,6 +888,8 @@ def check_C15(work, args):
     # (b) permutations of the top-level declarations
     ptexts, pidx = [], []
     for i, it in enumerate(acc):
+        ptexts.append(it['g'].text_reversed())
+        pidx.append(i)
         for k in range(nperm):
             ptexts.append(it['g'].text_permuted(ck.rng))
             pidx.append(i)
@@ -895,7 +921,7 @@ def check_C15(work, args):
             continue
     # parser behaviour: same inputs through the parsers of base and permutations (compared by names)
     pairs = [(acc[i], it2) for it2, i in zip(pitems, pidx) if 'pb' in it2 and it2['pb'].rustc_ok and 'pb' in acc[i] and acc[i]['pb'].rustc_ok]
-    pairs = pairs[:(30 if quick else 1500)]
+    pairs = pairs[:(45 if quick else 2000)]
     inputs_cache = {}
     def behav(pair):
         base, it2 = pair
